@@ -38,7 +38,23 @@ import (
 //     really does what was predicted (and the oracle fails) must be >= 95 %. A class whose
 //     prediction also holds for documents that pass is too broad and is reported as a broken
 //     tie "finding-class-too-broad: <id>", with the measured precision in the histogram;
-//  3. the recorded minimal witness of the class must still fail and fall into its own class.
+//  3. the recorded minimal witness of the class must still fail and fall into its own class;
+//  4. shrinking keeps the attribution (shrinkDoc): the original failing document is explained
+//     first, and a shrinking step is taken only if the candidate is explained by the same class
+//     (or by none, like the original) — the witness of a regression must not shrink into a
+//     smaller document that fails today as well. The predictions therefore have to hold for
+//     whole generated documents, which is why the scanner's line-level state (scanModel) is
+//     part of them and why the self-test also draws its documents inside larger ones.
+//
+// The classes (findingDefs; `what` and the exact minimal document are in known_findings.json):
+// md-unescape-nbsp, ld-escapable-set-incomplete, ld-character-reference-in-destination (right
+// span, wrong value); ld-rewritten-url-unbalanced-paren (structure broken by the written text);
+// ld-line-by-line-scanner, ld-html-block-not-recognised, ld-inline-html-inside-brackets,
+// ld-code-in-container-block, ld-code-span-over-inline-html, ld-paren-title-with-paren,
+// ld-empty-angle-destination, ld-image-in-link, ld-closing-tag-inside-link-title (a span that
+// is not a destination is rewritten). The last three replace the former `ld-nested-link-syntax`
+// ("`[[` or `](` twice on a line"), which also covered well-formed nested links — handled
+// correctly today — and so silenced the regression seeded/C29-linkstack-not-cleared.
 //
 // A regression makes documents fail that pass today; for such a document a class predicts
 // nothing (otherwise it would fail today, up to the measured precision), so it is a VIOLATION.
